@@ -141,10 +141,12 @@ def judgeB (g : SG) (k : Nat) : Op → Out → Bool
       | _ => false
     else o == .panic
   | .edgeToIndex a b, o =>
-    match o with
-    | .nat i => g.hasEdge a b && decide (i < (specEdgeKeys g k).length)
-    | .panic => true   -- which orientation of an undirected edge is its id is a two-call statement
-    | _ => false
+    if g.hasEdge a b then
+      match o with
+      | .nat i => decide (i < (specEdgeKeys g k).length)
+      | .panic => !g.directed && a != b   -- the other orientation of an undirected edge (see `OutOk`)
+      | _ => false
+    else o == .panic
   | .edgeFromIndex i, o =>
     if i < (specEdgeKeys g k).length then
       match o with
@@ -156,5 +158,14 @@ def judgeB (g : SG) (k : Nat) : Op → Out → Bool
       | some t => allEdgesB g k t
       | none => false)
   | _, _ => false
+
+/-- run-time check of the side condition of the judge theorems: every node value a call mentions is
+below `k` (`GMJudge.OpBounded`; `C03_opBounded_check`) -/
+def opBoundedB (k : Nat) : Op → Bool
+  | .addNode n => decide (n < k)
+  | .addEdge a b _ | .buildAddEdge a b _ | .buildUpdateEdge a b _ => decide (a < k) && decide (b < k)
+  | .extend es | .fromEdges es => es.all fun e => decide (e.1 < k) && decide (e.2.1 < k)
+  | .fromGraph ws _ => ws.all fun n => decide (n < k)
+  | _ => true
 
 end PetgraphModel.SimpleGraphSpec
